@@ -43,7 +43,7 @@ WEIGHTS = {"m_random_mps": 2, "m_genmpo": 5, "m_measure_jw": 7, "m_sample": 3, "
 
 
 def budget(tier):
-    return 2000 if tier == "quick" else 20000
+    return 4000 if tier == "quick" else 20000
 
 
 def _generating():
